@@ -259,6 +259,27 @@ Fixpoint L_dom (l : list cell) (ops : list aop) : bool :=
       end
   end.
 
+(* the registry size an operation asks for, on a frame base b and a list of n elements *)
+Definition aneed (b n : Z) (o : aop) : Z :=
+  match o with
+  | APush _ => b + n + 1
+  | ASetTop idx => if idx >=? 0 then b + idx else 0
+  | AInsert _ _ => b + n + 1
+  | _ => 0
+  end.
+
+(* the registry (limit lim, see RegSpec.Rr) is large enough for the whole script *)
+Fixpoint L_fits (b lim : Z) (l : list cell) (ops : list aop) : bool :=
+  match ops with
+  | [] => true
+  | o :: rest =>
+      (aneed b (len l) o <=? lim) &&
+      match L_step l o with
+      | (l1, _, false) => L_fits b lim l1 rest
+      | (_, _, true) => true
+      end
+  end.
+
 (* ---------------------------------------------------------------------------------------------- *)
 (* Register-window arithmetic of calls.                                                            *)
 
